@@ -330,6 +330,8 @@ def gen(rng, tier):
         heavy = name in GCD_OPS or name in ROOT1_OPS or name == "nth_root"
         core = heavy or name in FLOOR_OPS or name in ("abs", "abs_sub", "mul_add")
         per = (240 if thorough else 36) if core else (60 if thorough else 8)
+        if heavy and thorough:
+            per = 110
         if sig == "":
             per = 1
         for (w, n) in configs:
@@ -353,6 +355,15 @@ def gen(rng, tier):
                     if op.startswith("I.") and rng.chance(1, 3):
                         v = (1 << bits) - v
                     vals = [v] if name in ROOT1_OPS else [v, kk]
+                if bits > 1100 and name in GCD_OPS:
+                    # 8192-bit gcd: operands of at most ~300 significant bits times powers of two (the model's loop
+                    # costs one 128-digit subtraction and shift per removed bit)
+                    g = rng.bits(100) | 1
+                    x = (rng.bits(1 + rng.below(200)) | 1) * g
+                    y = (rng.bits(1 + rng.below(200)) | 1) * g
+                    vals = [(x << rng.below(bits - 300)) % (1 << bits), (y << rng.below(bits - 300)) % (1 << bits)]
+                    if op.startswith("I.") and rng.chance(1, 2):
+                        vals[0] = ((1 << bits) - vals[0]) % (1 << bits)
                 out.append(fmt_line(op, w, n, vals, sig))
     # degree sweep: every degree of the list on MAX, on a perfect power and on a random value, at every width
     # that reaches the Newton path
